@@ -17,6 +17,8 @@ pub struct Menu {
     /// offer at most this many most-recent variables per type
     pub vars_per_type: usize,
     pub alias_patterns: bool,
+    /// also generate matches whose last arm is a wildcard/variable default
+    pub default_arms: bool,
 }
 
 pub type Ctx = Vec<(Var, VT)>;
@@ -339,6 +341,42 @@ impl Gen {
                 }
             }
         }
+        // match with a default arm: first constructor explicit, everything else through `_` or a variable
+        if self.menu.default_arms {
+            for d in &self.menu.datas {
+                for split in splits(n - 1, 3) {
+                    let vs = self.vals(ctx, &VT::Data(*d), split[0]);
+                    if vs.is_empty() {
+                        continue;
+                    }
+                    let (_, pt) = &self.data[*d].ctors[0];
+                    let mut firsts = vec![];
+                    for p in self.pats(ctx, pt) {
+                        let full = Pat::Ctor(*d, 0, Box::new(p));
+                        let ctx2 = Self::extend(ctx, &full);
+                        for b in self.comps(&ctx2, ty, split[1]) {
+                            firsts.push((full.clone(), b));
+                        }
+                    }
+                    let mut defaults = vec![];
+                    for b in self.comps(ctx, ty, split[2]) {
+                        defaults.push((Pat::Wild(VT::Data(*d)), b));
+                    }
+                    let pv = Pat::Var(ctx.len() as Var, VT::Data(*d));
+                    let ctx2 = Self::extend(ctx, &pv);
+                    for b in self.comps(&ctx2, ty, split[2]) {
+                        defaults.push((pv.clone(), b));
+                    }
+                    for v in &vs {
+                        for f in &firsts {
+                            for dflt in &defaults {
+                                out.push(C::Match(v.clone(), *d, vec![f.clone(), dflt.clone()]));
+                            }
+                        }
+                    }
+                }
+            }
+        }
         // destructor
         for d in &self.menu.codatas {
             for (k, (_, t)) in self.codata[*d].dtors.iter().enumerate() {
@@ -411,7 +449,7 @@ pub struct Profile {
 
 pub fn profiles(thorough: bool) -> Vec<Profile> {
     let d = if thorough { 3 } else { 2 };
-    let base = Menu { vts: vec![], datas: vec![], codatas: vec![], ints: vec![1, 2], fix: false, exec: false, redex: false, vars_per_type: 2, alias_patterns: false };
+    let base = Menu { vts: vec![], datas: vec![], codatas: vec![], ints: vec![1, 2], fix: false, exec: false, redex: false, vars_per_type: 2, alias_patterns: false, default_arms: false };
     vec![
         Profile {
             name: "functions",
@@ -430,6 +468,12 @@ pub fn profiles(thorough: bool) -> Vec<Profile> {
             menu: Menu { vts: vec![VT::Int, VT::Data(BOOL), VT::Data(OPT), VT::Data(TWO)], datas: vec![BOOL, OPT, TWO], ints: vec![1], ..base.clone() },
             roots: vec![ret(VT::Int), ret(VT::Data(BOOL))],
             size: 8 + d,
+        },
+        Profile {
+            name: "match-default",
+            menu: Menu { vts: vec![VT::Int, VT::Data(BOOL), VT::Data(OPT)], datas: vec![BOOL, OPT, NAT], default_arms: true, ints: vec![1], ..base.clone() },
+            roots: vec![ret(VT::Int)],
+            size: 6 + d,
         },
         Profile {
             name: "recursive-data",
